@@ -322,6 +322,75 @@ mutual
     | _ => false
 end
 
+/-! ### declared (named) types in non-embedded positions
+
+  As in EncJson.lean: a declared type without marshal methods is its underlying type (`HasTypeE`, `encodeE`, `decodableE`
+  look through `.named`).  `eraseE T` replaces every declared type in a NON-embedded position by its underlying type; the
+  type of an embedded field keeps its name (the Go name of the field, and the key of a TypeSchemas override), the fields
+  below it are erased. -/
+
+mutual
+  def eraseE : GoTypeE → GoTypeE
+    | .basic kind => .basic kind
+    | .named _ u => eraseE u
+    | .ref n => .ref n
+    | .ptr e => .ptr (eraseE e)
+    | .slice e => .slice (eraseE e)
+    | .array n e => .array n (eraseE e)
+    | .map keyKind e => .map keyKind (eraseE e)
+    | .struct fields => .struct (eraseFieldsE fields)
+  def eraseFieldsE : List (FieldE GoTypeE) → List (FieldE GoTypeE)
+    | [] => []
+    | f :: rest =>
+      { goName := f.goName, tag := f.tag, exported := f.exported, embedded := f.embedded,
+        type := if f.embedded then eraseEmbE f.type else eraseE f.type } :: eraseFieldsE rest
+  /-- the type of an embedded field: the declared struct type stays, its fields are erased -/
+  def eraseEmbE : GoTypeE → GoTypeE
+    | .ptr (.named n (.struct fs)) => .ptr (.named n (.struct (eraseFieldsE fs)))
+    | .ptr (.struct fs) => .ptr (.struct (eraseFieldsE fs))
+    | .named n (.struct fs) => .named n (.struct (eraseFieldsE fs))
+    | .struct fs => .struct (eraseFieldsE fs)
+    | t => t
+end
+
+/-- `InDomainE` with declared types in non-embedded positions -/
+def InDomainEN (T : GoTypeE) : Bool := InDomainE (eraseE T)
+
+def namedShapeE : GoTypeE → Bool
+  | .basic _ => true
+  | .slice _ => true
+  | .array _ _ => true
+  | .map _ _ => true
+  | .struct _ => true
+  | _ => false
+
+mutual
+  /-- the declared types in non-embedded positions are transparent for `forTypeE` (decidable; as `EncJson.NamedOk`
+      without marshaler types): none has an entry in the type table, the underlying type is a basic kind, slice, array,
+      map or struct, no name occurs twice along a root-to-leaf path.  The declared types of embedded fields are not
+      constrained: `forTypeE` never calls itself on them (their fields are promoted). -/
+  def NamedOkE (opts : Go.IOpts) : List String → GoTypeE → Bool
+    | _, .basic _ => true
+    | seen, .ptr e => NamedOkE opts seen e
+    | seen, .slice e => NamedOkE opts seen e
+    | seen, .array _ e => NamedOkE opts seen e
+    | seen, .map _ e => NamedOkE opts seen e
+    | seen, .struct fields => namedOkFieldsE opts seen fields
+    | seen, .named n u =>
+      !seen.contains n && (Json.lookup n opts.schemas).isNone && namedShapeE u && NamedOkE opts (n :: seen) u
+    | _, .ref _ => false
+  def namedOkFieldsE (opts : Go.IOpts) : List String → List (FieldE GoTypeE) → Bool
+    | _, [] => true
+    | seen, f :: rest =>
+      (if f.embedded then namedOkEmbE opts seen f.type else NamedOkE opts seen f.type) && namedOkFieldsE opts seen rest
+  def namedOkEmbE (opts : Go.IOpts) : List String → GoTypeE → Bool
+    | seen, .ptr (.named _ (.struct fs)) => namedOkFieldsE opts seen fs
+    | seen, .ptr (.struct fs) => namedOkFieldsE opts seen fs
+    | seen, .named _ (.struct fs) => namedOkFieldsE opts seen fs
+    | seen, .struct fs => namedOkFieldsE opts seen fs
+    | _, _ => true
+end
+
 mutual
   /-- a bound on the nesting depth of the schema (an embedded struct is counted as a level of its own) -/
   def depthE : GoTypeE → Nat
